@@ -9,8 +9,8 @@ CONSTANT Dev
 VARIABLES st, c
 PVals(i) == LET t == PZoo[i] IN Values(t) \o <<ZeroOf(t)>> \o Sweep(t, Values(t)[1]) \o PExtra(i)
 Init == st = "type" /\ c \in {[ti |-> i] : i \in 1..Len(PZoo)}
-Next == st = "type" /\ st' = "case" /\ \E j \in 1..Len(PVals(c.ti)) :
-           c' = [ti |-> c.ti, v |-> PVals(c.ti)[j], dev |-> PDevOf(c.ti, Dev)]
+Next == st = "type" /\ st' = "case" /\ LET vs == PVals(c.ti) IN \E j \in 1..Len(vs) :
+           c' = [ti |-> c.ti, v |-> vs[j], dev |-> PDevOf(c.ti, Dev)]
 Spec == Init /\ [][Next]_<<st, c>>
 
 \* M: the expected decoded form is consistent with the schema (one occurrence list per declared field;
